@@ -15,6 +15,7 @@ CONSTANTS
   Record = TRUE
   MaxSteps = 14
   Sample = FALSE
+  Variant = "base"
 INVARIANT QuotaExact
 INVARIANT CostExactOrExport
 INVARIANT NeverLockedOut
